@@ -48,7 +48,7 @@ struct Blob {
   void assign(Slice<const uint8_t> s) {
     __CPROVER_assert(s.size() <= N, "THROW: Blob::assign oversize input (std::domain_error)");
     __CPROVER_assume(s.size() <= N);
-    for (size_t i = 0; i < s.size(); i++) data_[i] = s[i];
+    for (size_t i = 0; i < N; i++) if (i < s.size()) data_[i] = s[i];   // (loop bound is the constant N: no unwinding beyond N)
   }
   bool operator==(const Blob<N>& b) const {
     for (size_t i = 0; i < N; i++) if (data_[i] != b.data_[i]) return false;
